@@ -22,13 +22,14 @@ type C08Case struct {
 	Files  []string `json:"files"`
 	CLI    string   `json:"cli,omitempty"`   // "", "p", "stdin"
 	Flags  []string `json:"flags,omitempty"` // further command-line flags (CLI cases)
+	Args   []string `json:"args,omitempty"`  // target arguments instead of "." ("$T" = absolute path of the target directory)
 }
 
 func init() {
 	core.Register(&core.Property{
 		ID:    "C08",
 		Level: "model_checking",
-		Rule: "universe = (a) every sequence of <=5 (thorough <=6) lines over 16 line shapes (headers good/bad, '#', blank, metavariable declarations good/bad, -/+/context lines, elision lines) with and without final newline; (b) every sequence of <=4 (thorough <=5) tokens over a 33-token alphabet as the '-' side against a fixed '+' side and vice versa; (c) every byte prefix of every patch in /repo/testdata and /repo/examples; (d) the radius-1 token neighbourhood of each of those patches (each token deleted, duplicated, swapped with its neighbour, replaced by each alphabet token); (f) the radius-1 byte neighbourhood of those patches (each byte deleted; each of 14 (thorough 31) hostile bytes incl. NUL, 0xff, CR inserted before / written over every position); (g) every real patch and 7 stress patches against every construct of the catalogue in context and against deeply nested / long sources (nesting 10..300, thorough ..1000); (h) 14 unusual file headers (empty comment lines, /**/, BOM, //line, markers) x 3 bodies x 5 flag sets through the CLI; (i) a target tree whose symbolic links form cycles; every sequence of <=3 lines of a -P list over {valid, missing, empty, blanks, tab, '#', trailing blanks} with and without final newline; (j) every sequence of <=5 (thorough <=6) body lines over 7 lines with elisions on the -, + and context side; (k) //line directives (line 1, 7, 300000000) at every line of a target with multi-line sites; (l) 2..9 elisions (literal, one repeated metavariable, distinct metavariables) over lists of 12 and 40 equal elements, as arguments and as statements; (m) every sequence of <=5 lines over 6 lines that start with or carry many elisions; (e) well-formed but ill-typed patches: every metavariable kind in every slot kind on either side with captures of every filler kind. Each runs patch.Parse and, if accepted, Apply on target files that contain every construct; a slice also through the CLI (-p and stdin). " +
+		Rule: "universe = (a) every sequence of <=5 (thorough <=6) lines over 16 line shapes (headers good/bad, '#', blank, metavariable declarations good/bad, -/+/context lines, elision lines) with and without final newline; (b) every sequence of <=4 (thorough <=5) tokens over a 33-token alphabet as the '-' side against a fixed '+' side and vice versa; (c) every byte prefix of every patch in /repo/testdata and /repo/examples; (d) the radius-1 token neighbourhood of each of those patches (each token deleted, duplicated, swapped with its neighbour, replaced by each alphabet token); (f) the radius-1 byte neighbourhood of those patches (each byte deleted; each of 14 (thorough 31) hostile bytes incl. NUL, 0xff, CR inserted before / written over every position); (g) every real patch and 7 stress patches against every construct of the catalogue in context and against deeply nested / long sources (nesting 10..300, thorough ..1000); (h) 14 unusual file headers (empty comment lines, /**/, BOM, //line, markers) x 3 bodies x 5 flag sets through the CLI; (i) a target tree whose symbolic links form cycles; every sequence of <=3 lines of a -P list over {valid, missing, empty, blanks, tab, '#', trailing blanks} with and without final newline; (j) every sequence of <=5 (thorough <=6) body lines over 7 lines with elisions on the -, + and context side; (k) //line directives (line 1, 7, 300000000) at every line of a target with multi-line sites; (l) 2..9 elisions (literal, one repeated metavariable, distinct metavariables) over lists of 12 and 40 equal elements, as arguments and as statements; (m) every sequence of <=5 lines over 6 lines that start with or carry many elisions; (n) every sequence of <=3 target arguments over 7 spellings of two files and their directory; (e) well-formed but ill-typed patches: every metavariable kind in every slot kind on either side with captures of every filler kind. Each runs patch.Parse and, if accepted, Apply on target files that contain every construct; a slice also through the CLI (-p and stdin). " +
 			"Oracle: terminates (watchdog), no panic or fatal error, and either success or an error value / non-zero exit with a diagnostic. non-trivial = the patch is accepted by patch.Parse (the engine runs)",
 		Assumptions: []string{"a case that does not return within the watchdog limit of 10 s (normal cost < 1 ms) is re-run in isolation before it is reported as a hang"},
 		Bounds: func(tier string) map[string]any {
@@ -244,6 +245,14 @@ func c08Gen(tier string, emit0 func(any)) {
 			return
 		}
 		emit(&C08Case{Family: "m-leading-elision", Patch: "@@\n@@\n" + strings.Join(s, "\n") + "\n", Files: dotTarget})
+	})
+	// (n) the same files named several times, in every spelling and order
+	twoFiles := []string{"package p\n\nfunc f() {\n\tfoo(1)\n}\n", "package p\n\nfunc g() {\n\tfoo(2)\n}\n"}
+	seqsEach([]string{".", "f0.go", "f1.go", "./f1.go", "$T", "$T/f1.go", "./..."}, 3, func(a []string) {
+		if len(a) == 0 {
+			return
+		}
+		emit(&C08Case{Family: "n-repeated-arguments", Patch: "@@\nvar x expression\n@@\n-foo(x)\n+bar(x)\n", Files: twoFiles, CLI: "p", Args: append([]string{}, a...)})
 	})
 	// (b) token strings on one side
 	seqsEach(c08TokenAlphabet, tl, func(s []string) {
@@ -512,6 +521,12 @@ func c08Run(env *core.Env, ci any) core.Outcome {
 				os.WriteFile(sb.path("t/b/g.go"), []byte(c.Files[0]), 0o644)
 			}
 			args := []string{"-p", sb.path("v.patch"), "."}
+			if len(c.Args) > 0 {
+				args = args[:2]
+				for _, a := range c.Args {
+					args = append(args, strings.ReplaceAll(a, "$T", sb.path("t")))
+				}
+			}
 			if c.CLI == "P" {
 				os.WriteFile(sb.path("list.txt"), []byte(strings.ReplaceAll(c.Patch, "$VALID", sb.path("v.patch"))), 0o644)
 				args = []string{"-P", sb.path("list.txt"), "."}
